@@ -21,9 +21,9 @@ func (c10) ID() string { return "C10" }
 
 func c10Seqs(tier string) []*gen.TokSeqs {
 	if tier == "thorough" {
-		return []*gen.TokSeqs{gen.NewTokSeqs(gen.Sigma, 5), gen.NewTokSeqs(gen.SigmaSmall, 7), gen.NewTokSeqs(gen.SigmaRange, 7), gen.NewTokSeqs(gen.SigmaTiny, 9)}
+		return []*gen.TokSeqs{gen.NewTokSeqs(gen.Sigma, 5), gen.NewTokSeqs(gen.SigmaSmall, 7), gen.NewTokSeqs(gen.SigmaRange, 7), gen.NewTokSeqs(gen.SigmaTiny, 9), gen.NewTokSeqs(gen.SigmaAmount, 5)}
 	}
-	return []*gen.TokSeqs{gen.NewTokSeqs(gen.Sigma, 4), gen.NewTokSeqs(gen.SigmaSmall, 5), gen.NewTokSeqs(gen.SigmaRange, 5), gen.NewTokSeqs(gen.SigmaTiny, 7)}
+	return []*gen.TokSeqs{gen.NewTokSeqs(gen.Sigma, 4), gen.NewTokSeqs(gen.SigmaSmall, 5), gen.NewTokSeqs(gen.SigmaRange, 5), gen.NewTokSeqs(gen.SigmaTiny, 7), gen.NewTokSeqs(gen.SigmaAmount, 4)}
 }
 
 // seqPlan lays several token-sequence spaces, a tree block and a fuzz block over batch numbers.
@@ -71,6 +71,17 @@ func hostileInputs(h string) []string {
 	}
 	if e := qt.Escaped(h).Text; e != "" {
 		ins = append(ins, e, "a:"+e, e+":b", "a:["+e+" TO b]", "a:"+e+"*")
+	}
+	// the string as a field name (raw, quoted, escaped) under every leaf kind
+	fields := []string{h}
+	if !strings.Contains(h, `"`) {
+		fields = append(fields, qt.Phrase(h).Text)
+	}
+	if e := qt.Escaped(h).Text; e != "" {
+		fields = append(fields, e)
+	}
+	for _, f := range fields {
+		ins = append(ins, f+":[1 TO 5]", f+":{10 TO 90}", f+":[* TO 2.5]", f+":{-3 TO *}", f+":[aa TO bb]", f+":>5", f+":<=1.5", f+":(x OR y)", f+":(1 OR 2 OR 3)", f+":w*", f+":/r.e/", f+`:"q s"`, f+"=1")
 	}
 	return ins
 }
@@ -256,7 +267,7 @@ func (c10) Finish(res *core.Result, cov map[string]any) []string {
 	reasons := []string{}
 	cov["distinct_nontrivial"] = res.NDistinct("shapes")
 	cov["exhaustive"] = true
-	cov["rule"] = "all token sequences up to length L over three alphabets (exhaustive; L=4/5 quick, 5/7 thorough), every depth<=2 tree over 8 leaves printed minimally, and a seeded feedback-guided byte fuzzer; each input with and without a default field. Inspected: the result tuples of Parse / ToPostgres / ToParameterizedPostgres, expr.Validate and the harness' own shape walk on every accepted tree. Non-trivial = distinct accepted tree shape (operator skeleton with leaf kinds)."
+	cov["rule"] = "all token sequences up to length L over five alphabets (general, operators, ranges, brackets, suffix-operator amounts) (exhaustive; L=4/5 quick, 5/7 thorough), every depth<=2 tree over 8 leaves printed minimally, and a seeded feedback-guided byte fuzzer; each input with and without a default field. Inspected: the result tuples of Parse / ToPostgres / ToParameterizedPostgres, expr.Validate and the harness' own shape walk on every accepted tree. Non-trivial = distinct accepted tree shape (operator skeleton with leaf kinds)."
 	floor(res.Counters["accepted"] >= 1000, &reasons, "accepted inputs %d < 1000", res.Counters["accepted"])
 	floor(res.Counters["rejected"] >= 1000, &reasons, "rejected inputs %d < 1000", res.Counters["rejected"])
 	reducersAllFired(res, &reasons)
